@@ -342,7 +342,8 @@ Definition deliver_top (d : dm) (vs : list move) : dm :=
 
 Record tick_obs := mk_tobs {
   to_progress : bool; to_acks : list ack; to_in : list mreq; to_out : list mreq;
-  to_active : bool; to_ntop : nat }.
+  to_active : bool; to_ntop : nat;
+  to_snap : option (list N * list N) }.   (* both memories, at a tick in which an acknowledgment was sent *)
 
 Definition env_step (e : env) (i : instant) : outcome (env * tick_obs) :=
   let d0 := deliver_top (e_dm e) (i_top i) in
@@ -360,7 +361,8 @@ Definition env_step (e : env) (i : instant) : outcome (env * tick_obs) :=
     Ret (mk_env d2 (e_mem_in e2) (e_mem_out e2)
                 (e_pend_in e2 ++ firstn (i_drain_in i) (p_out pi)) (e_pend_out e2 ++ firstn (i_drain_out i) (p_out po)),
          mk_tobs p (firstn (i_drain_top i) (d_top_out d1)) (firstn (i_drain_in i) (p_out pi)) (firstn (i_drain_out i) (p_out po))
-                 (d_active d1) ntop)).
+                 (d_active d1) ntop
+                 (if (length (g_acks d1) =? length (g_acks (e_dm e2)))%nat then None else Some (e_mem_in e2, e_mem_out e2)))).
 
 (** runs until the script ends or the component panics; the flag says which *)
 Fixpoint env_run (e : env) (s : list instant) : env * list tick_obs * N :=
